@@ -106,11 +106,90 @@ def _c17(failure):
     return x
 
 
+_UNKNOWN, _ERR = object(), object()
+
+
+def _oxiri_remove_last_segment(out, authority_end, scheme_end):
+    i = out[authority_end:].rfind(b"/")
+    if i >= 0:
+        return out[:authority_end + i] + b"/"
+    out = out[:authority_end]
+    return out + b"/" if authority_end > scheme_end else out
+
+
+def _oxiri_resolve(base, ref):
+    """what oxiri 0.2 (the resolver behind BaseIri::resolve) answers for `ref` against `base`, transcribed from
+    IriParser::parse_relative / parse_path::<true> / remove_last_segment for references WITHOUT scheme and authority
+    whose characters are legal where they stand (true of what relativize emits: slices of a valid IRI behind './' or
+    '../'); _UNKNOWN for scheme / network-path references, _ERR for PathStartingWithTwoSlashes.
+    It differs from RFC 3986 5.2 exactly in the two ways of the C09 findings: dot segments of the BASE path stay, and
+    '..' at the top of a rootless authority-less path leaves a rootless path."""
+    b = _split(base)
+    scheme_end = len(b["scheme"]) + 1
+    authority_end = scheme_end + (len(b["authority"]) + 2 if b["authority"] is not None else 0)
+    path_end = authority_end + len(b["path"])
+    query_end = path_end + (len(b["query"]) + 1 if b["query"] is not None else 0)
+    if ref == b"":
+        return base[:query_end]
+    if b":" in re.split(rb"[/?#]", ref)[0] or ref.startswith(b"//"):
+        return _UNKNOWN
+    c = ref[:1]
+    if c == b"?":
+        return base[:path_end] + ref
+    if c == b"#":
+        return base[:query_end] + ref
+    if c == b"/":
+        out, inp = base[:authority_end] + b"/", ref[1:]
+    else:
+        out, inp = _oxiri_remove_last_segment(base[:path_end], authority_end, scheme_end), ref
+    i = 0
+    while True:
+        c = inp[i:i + 1] if i < len(inp) else None
+        i += 1
+        if c is None or c in (b"/", b"?", b"#"):
+            path = out[authority_end:]
+            if path.endswith(b"/.."):
+                out = _oxiri_remove_last_segment(out[:-3], authority_end, scheme_end)
+            elif path.endswith(b"/.") or path == b".":
+                out = out[:-1]
+            elif path == b"..":
+                out = out[:-2]
+            elif c == b"/":
+                out += b"/"
+                continue
+            if out[authority_end:].startswith(b"//") and authority_end == scheme_end:
+                return _ERR
+            if c is None:
+                return out
+            if c in (b"?", b"#"):
+                return out + c + inp[i:]
+        else:
+            out += c
+
+
+def _res_is_oxiri(x):
+    """field `res`: the implementation's resolution is what the UNCHANGED resolver is known to answer (so that a new
+    resolver defect in the same region is not excused)"""
+    got = x["I"].get("res")
+    rel = x["I"].get("rel")
+    if got in (None, "panic") or rel in (None, "none", "panic"):
+        return False
+    want = _oxiri_resolve(x["base"], _unhex_bytes(rel))
+    if want is _UNKNOWN:
+        return True
+    if want is _ERR:
+        return got == "err"
+    return got != "err" and _unhex_bytes(got) == want
+
+
 def _field_ok(x, fields):
-    """the failing field is one of `fields`; `nopanic` only counts as the debug assertion on an invalid reference"""
+    """the failing field is one of `fields`; `nopanic` only counts as the debug assertion on an invalid reference;
+    `res` (real resolver vs RFC 3986 on the same reference) only as the known deviation of the resolver"""
     f = x["field"]
     if f == "nopanic":
         return "nopanic" in fields and x["invalid_panic"]
+    if f == "res":
+        return "res" in fields and x["I"].get("rel") != "panic" and _res_is_oxiri(x)
     return f in fields and x["I"].get("rel") != "panic"
 
 
@@ -240,7 +319,7 @@ def c17_res_base_dot_segments(failure):
     x = _c17(failure)
     if not x or x["I"].get("res") in (None, "err", "panic"):
         return False
-    return _has_dot_segment(x["b"]["path"])
+    return _has_dot_segment(x["b"]["path"]) and _res_is_oxiri(x)
 
 
 @predicate
